@@ -253,12 +253,39 @@ def r5(run, ctx, f, cfg, stop, kill):
                           'the recursive flag reaches the children enumeration', g, n.ast)
     parent = ctx.nodes_calling(g, [W + 'send_signal'])
     childs = ctx.nodes_calling(g, [P + 'send_signal_child'])
+    # children are found *through* their parents (send_signal_child looks the pid up among the
+    # worker's descendants), so they must be signalled while the parents are still there:
+    # children before the worker itself, deepest first, and the lookup must cover descendants
+    for pn in parent:
+        for cn in childs:
+            run.check('R5', not c2.reachable(pn, cn), 'the children are signalled before the '
+                      'worker itself', g, cn.ast,
+                      'the worker is signalled first: once it is gone (SIGKILL) its children are '
+                      're-parented and send_signal_child, which looks them up through the worker, '
+                      'finds nothing - the final SIGKILL never reaches the children',
+                      construct='child signalled after parent')
+    sc = ctx.fn(P + 'send_signal_child')
+    gc = [c for n in ctx.live_nodes(sc) for c in n.calls() if astq.call_last(c) == 'get_children']
+    if run.need('R5', gc, 'children lookup in Process.send_signal_child', sc):
+        for c in gc:
+            rec = astq.kwarg(c, 'recursive', 1)
+            run.check('R5', rec is not None and astq.const_value(rec, None) is True,
+                      'send_signal_child finds the pid among all descendants of the worker', sc, c,
+                      'send_signal_child only looks among direct children: the grandchildren '
+                      'handed to it by the recursive SIGKILL are never signalled',
+                      construct='child lookup not recursive')
     run.need('R5', parent, 'signal to the worker itself in send_signal_process', g)
     run.need('R5', childs, 'signal to each child in send_signal_process', g)
     for n in childs:
         hdr = [h for h in c2.nodes if h.kind == 'iter' and n.id in c2.branch_nodes(h, 'true')]
         run.check('R5', bool(hdr) and 'children' in norm_text(hdr[0].ast.iter),
                   'each enumerated child is signalled', g, n.ast)
+        it = hdr[0].ast.iter if hdr else None
+        run.check('R5', isinstance(it, ast.Call) and dotted(it.func) == 'reversed',
+                  'descendants are signalled deepest first (psutil lists parents before their '
+                  'children)', g, n.ast, 'descendants are signalled top-down: killing a child '
+                  'first orphans its own children, which are then no longer found',
+                  construct='children not deepest-first')
         for c in n.calls():
             if astq.call_last(c) == 'send_signal_child':
                 run.check('R5', len(c.args) >= 2 and isinstance(c.args[1], ast.Name) and
